@@ -49,6 +49,22 @@ def check_partition(case):
                 alph_seen = alph
             elif alph != alph_seen:
                 v("alphabet-unstable", "size %d: returned alphabet differs between calls: %r vs %r" % (size, alph, alph_seen))
+    # what a call returns belongs to the caller: editing the returned alphabet list must not affect later calls
+    try:
+        r_first = red("ACDEFGHIKLMNPQRSTVWY", alphabetSize=size)
+        from localcider.sequenceParameters import SequenceParameters as SP
+        raw = SP("ACDEFGHIKLMNPQRSTVWY").get_reduced_alphabet_sequence(size)
+        if isinstance(raw[1], list):
+            raw[1].append("-")
+            raw[1].sort()
+            raw[1].pop()
+        r_again = red("ACDEFGHIKLMNPQRSTVWY", alphabetSize=size)
+        calls += 3
+        if r_again[0] != r_first[0] or sorted(r_again[1]) != sorted(r_first[1]):
+            v("returned-alphabet-shared", "size %d: after the caller edited the alphabet list it had been given, a new call returns %r "
+              "(before: %r)" % (size, r_again[1], r_first[1]))
+    except Exception as e:  # noqa
+        v("exception", "size %d: %r" % (size, e))
     # the same size in other spellings (numpy integer, integral float, digit string - the error message of the package itself
     # says a string convertible to an integer is fine) must give the same reduction
     import numpy as _np
